@@ -638,4 +638,15 @@ def fromJson (S : Schema) (T : Txt) (D : List Val) (m : Nat) (j : Json) : Option
   | .onil | .ocons _ _ _ | .null => fromJ S T D m (D.getD m .nil) j
   | _ => none
 
+
+/-! ## the public entry points per root (`p*.ProtoUnmarshaler`, `p*.JSONUnmarshaler`, `p*otlp.ExportRequest/ExportResponse`) -/
+
+/-- protobuf decode of root `root` (message `m`): the generated `Unmarshal`, then `otlp.Migrate*` where the wrapper calls it -/
+def decodeRoot (S : Schema) (D : List Val) (root : String) (m : Nat) (b : Bytes) : Option Val :=
+  (decode S D m b).map (fun v => if migratesPb root then migrate S m v else v)
+
+/-- JSON decode of root `root`: the hand-written reader, then `otlp.Migrate*` -/
+def fromJsonRoot (S : Schema) (T : Txt) (D : List Val) (root : String) (m : Nat) (j : Json) : Option Val :=
+  (fromJson S T D m j).map (fun v => if migratesJson root then migrate S m v else v)
+
 end OtelVerif.C08
